@@ -5,7 +5,7 @@
     node.name.replace("-", "_").casefold()   -> normalize   (ASCII names: the property's domain)
     self._node_method_cache                   -> a list of (suffix after "visit_", handler)
     NodeVisitor.visit                         -> visit      (`none` = _skip_visit's None)
-    Node.__eq__ / LiteralNode.__eq__          -> treeEq / treeEqL
+    Node.__eq__ / LiteralNode.__eq__          -> treeEq / treeEqL (defined in Syntax.lean)
 -/
 import Abnf.Syntax
 namespace Abnf
@@ -31,18 +31,5 @@ def visit {ρ : Type} (table : List (List Nat × (Tree → ρ))) (t : Tree) : Op
   match lookupKey (normalize t.nameCps) table with
   | some h => some (h t)
   | none => none
-
-mutual
-/-- `Node.__eq__` / `LiteralNode.__eq__` -/
-def treeEq : Tree → Tree → Bool
-  | .leaf t o l, .leaf t' o' l' => t == t' && o == o' && l == l'
-  | .node n cs, .node n' cs' => n == n' && treeEqL cs cs'
-  | _, _ => false
-/-- list `==` in Python: same length and element-wise `==` -/
-def treeEqL : List Tree → List Tree → Bool
-  | [], [] => true
-  | a :: as, b :: bs => treeEq a b && treeEqL as bs
-  | _, _ => false
-end
 
 end Abnf
